@@ -58,8 +58,34 @@ def calc_matrix(model_dict, values, dataset_label, global_axis, model_axis, mega
     params = make_parameters(values, options)
     ds = filled_dataset(model, params, dataset_label)
     mc = ds.megacomplex[megacomplex_index]
-    labels, matrix = mc.calculate_matrix(ds, np.asarray(global_axis, dtype=float), np.asarray(model_axis, dtype=float))
+    ga, ma = np.array(global_axis, dtype=float), np.array(model_axis, dtype=float)
+    labels, matrix = mc.calculate_matrix(ds, ga, ma)
+    first = np.array(matrix, copy=True)
+    _evaluation_history(mc, ds, ga, ma, np.asarray(global_axis, dtype=float), np.asarray(model_axis, dtype=float), list(labels), matrix, first)
     return list(labels), np.asarray(matrix), mc, ds
+
+
+class HistoryError(AssertionError):
+    """a megacomplex evaluation depends on, or leaves behind, more than its arguments"""
+
+
+def _evaluation_history(mc, ds, ga, ma, ga0, ma0, labels, matrix, first):
+    """Every matrix evaluation of the builtin-model checks is followed by an evaluation of the same filled model on
+    other axes of the same lengths and by a repetition of the first one: the repetition must be bit-identical, the
+    axes handed in must be untouched, and the array returned first must not change afterwards."""
+    if not (np.array_equal(ga, ga0) and np.array_equal(ma, ma0)):
+        raise HistoryError("calculate_matrix modified the axes it was given")
+    try:
+        mc.calculate_matrix(ds, ga[::-1] * 1.01 + 0.5, ma + 0.37)
+    except Exception:  # noqa: BLE001, S110  (the decoy axes need not be meaningful for every model)
+        pass
+    labels2, again = mc.calculate_matrix(ds, ga, ma)
+    if list(labels2) != labels or not np.array_equal(np.asarray(again), first, equal_nan=True):
+        raise HistoryError("a repeated evaluation (after an evaluation on other axes) differs from the first")
+    if not np.array_equal(np.asarray(matrix), first, equal_nan=True):
+        raise HistoryError("a later evaluation changed the array returned by the first")
+    if not (np.array_equal(ga, ga0) and np.array_equal(ma, ma0)):
+        raise HistoryError("calculate_matrix modified the axes it was given")
 
 
 def dataset_matrix(model_dict, values, dataset_label, global_axis, model_axis, options=None):
